@@ -56,6 +56,7 @@ type XScript struct {
 	// has seen that many attempts; it only steers which history is observed.
 	AwaitAttempts int
 	AwaitMS       int
+	Tracer        string // tracer mode (see tracer_test.go)
 }
 
 // XBatch is a batching configuration (items).
@@ -77,7 +78,7 @@ const forever = 1 << 20
 func (s *XScript) sync() bool { return s.Queue == "none" || s.Wait }
 
 func genX(t *rapid.T) XScript {
-	s := XScript{Signal: rapid.SampledFrom(sig.Three).Draw(t, "signal")}
+	s := XScript{Signal: rapid.SampledFrom(sig.Three).Draw(t, "signal"), Tracer: genTracer(t)}
 	shape := rapid.SampledFrom([]string{
 		"none", "none-legacy", "memory", "memory-batch", "memory-batch", "memory-legacy", "memory-wait", "memory-wait-batch",
 		"persistent", "persistent", "persistent-legacy",
@@ -363,6 +364,7 @@ func runXInner(c *vt.C, s *XScript) (nontrivial bool, f *vt.Finding) {
 	set := exportertest.NewNopSettings(xh.Type)
 	set.ID = component.NewIDWithName(xh.Type, "x")
 	set.TelemetrySettings = tel.NewTelemetrySettings()
+	applyTracer(&set.TelemetrySettings, s.Tracer)
 	be := newBackend(s)
 	exp, err := xh.NewExporter(s.Signal, set, be.push, opts...)
 	if err != nil {
@@ -399,7 +401,7 @@ func runXInner(c *vt.C, s *XScript) (nontrivial bool, f *vt.Finding) {
 		calls[i] = &call{ids: idsOf(v)}
 		given += len(calls[i].ids)
 	}
-	offer := func(i int) { calls[i].err = exp.Consume(context.Background(), vals[i]) }
+	offer := func(i int) { calls[i].err = exp.Consume(callerCtx(s.Tracer), vals[i]) }
 
 	// phase 1: offers against a gated backend, then the gauges
 	if s.Hold == 0 {
@@ -663,7 +665,7 @@ func runXInner(c *vt.C, s *XScript) (nontrivial bool, f *vt.Finding) {
 	if storedFail > 0 || storedOK > 0 {
 		kinds["shutdown-interrupted-retry"] = true
 	}
-	c.Class("signal:"+s.Signal, "queue:"+s.Queue, fmt.Sprintf("outcome-kinds:%d", len(kinds)))
+	c.Class("signal:"+s.Signal, "queue:"+s.Queue, fmt.Sprintf("outcome-kinds:%d", len(kinds)), "tracer:"+s.Tracer)
 	for kd := range kinds {
 		c.Class("kind:" + kd)
 	}
